@@ -69,14 +69,23 @@ package auparse
 //@ func auparse.decodeUppercaseHexString
 //@ modifies alloc
 //@ ensures[C05] isNil(result1) ==> len(result0) == len(s) / 2
+//@ ensures[C12] isNil(result1) ==> len(s) % 2 == 0 && (forall j int :: 0 <= j && j < len(s) ==> isHexUp(s[j]))
+//@ ensures[C12] isNil(result1) ==> (forall k int :: lo(result0) <= k && k < hi(result0) ==> at(result0, k) == 16 * hexVal(s[2 * (k - lo(result0))]) + hexVal(s[2 * (k - lo(result0)) + 1]))
+//@ ensures[C12] len(s) % 2 == 0 && (forall j int :: 0 <= j && j < len(s) ==> isHexUp(s[j])) ==> isNil(result1)
 //@ func auparse.hexToString
 //@ modifies alloc
 //@ func auparse.hexToStrings
 //@ modifies alloc
 //@ ensures[C05] isNil(result1) ==> len(result0) >= 1
+//@ spec sockFamily(s string) int := strIval(s[2:4] ++ s[0:2], 16)
 //@ func auparse.parseSockaddr
 //@ modifies alloc
 //@ ensures[C05] isNil(result1) ==> result0 != nil
+//@ ensures[C12] len(s) < 4 ==> !isNil(result1)
+//@ ensures[C12] isNil(result1) && sockFamily(s) == 2 ==> len(s) >= 16 && result0["family"] == "ipv4" && result0["port"] == strDec(strIval(s[4:8], 16)) && "addr" in result0
+//@ ensures[C12] isNil(result1) && sockFamily(s) == 10 ==> len(s) >= 48 && result0["family"] == "ipv6" && result0["port"] == strDec(strIval(s[4:8], 16)) && "addr" in result0
+//@ ensures[C12] isNil(result1) && sockFamily(s) == 1 ==> result0["family"] == "unix" && "path" in result0
+//@ ensures[C12] isNil(result1) && sockFamily(s) == 16 ==> result0["family"] == "netlink" && result0["saddr"] == s
 //@ func auparse.normalizeAuditMessage
 //@ modifies alloc
 //@ func (auparse.fieldMap).hexDecode
@@ -100,15 +109,31 @@ package auparse
 //@ func (auparse.fieldMap).parseSELinuxContext
 //@ requires fm != nil
 //@ modifies mapOf(fm), alloc
+// Derived-field rules.
+//@ spec isSuccess(v string) bool := toLower(v) == "yes" || toLower(v) == "1" || (len(toLower(v)) >= 3 && toLower(v)[0] == 's' && toLower(v)[1] == 'u' && toLower(v)[2] == 'c')
 //@ func (auparse.fieldMap).result
 //@ requires fm != nil
 //@ modifies mapOf(fm), alloc
+//@ ensures[C12] old("success" in fm) ==> isNil(result0)
+//@ ensures[C12] old("success" in fm) ==> "result" in fm
+//@ ensures[C12] old("success" in fm) ==> !("success" in fm)
+//@ ensures[C12] old("success" in fm) && isSuccess(old(fm["success"].value)) ==> fm["result"].value == "success"
+//@ ensures[C12] old("success" in fm) && !isSuccess(old(fm["success"].value)) ==> fm["result"].value == "fail"
+//@ ensures[C12] !old("success" in fm) && old("res" in fm) ==> isNil(result0) && "result" in fm && !("res" in fm)
+//@ ensures[C12] !old("success" in fm) && old("res" in fm) && isSuccess(old(fm["res"].value)) ==> fm["result"].value == "success"
+//@ ensures[C12] !old("success" in fm) && old("res" in fm) && !isSuccess(old(fm["res"].value)) ==> fm["result"].value == "fail"
+//@ ensures[C12] !old("success" in fm) && !old("res" in fm) ==> !isNil(result0)
 //@ func (auparse.fieldMap).exit
 //@ requires fm != nil
 //@ modifies mapOf(fm), alloc
+//@ ensures[C12] old("exit" in fm) && strIsNum(old(fm["exit"].value), 10, true) && -9223372036854775807 <= strIval(old(fm["exit"].value), 10) && strIval(old(fm["exit"].value), 10) < 0 && (0 - strIval(old(fm["exit"].value), 10)) in AuditErrnoToName ==> fm["exit"].value == AuditErrnoToName[0 - strIval(old(fm["exit"].value), 10)]
+//@ ensures[C12] old("exit" in fm) && strIsNum(old(fm["exit"].value), 10, true) && 0 <= strIval(old(fm["exit"].value), 10) && strIval(old(fm["exit"].value), 10) <= 9223372036854775807 ==> fm["exit"].value == old(fm["exit"].value)
 //@ func (auparse.fieldMap).normalizeUnsetID
 //@ requires fm != nil
 //@ modifies mapOf(fm), alloc
+//@ ensures[C12] old(key in fm) && (old(fm[key].value) == "4294967295" || old(fm[key].value) == "-1") ==> fm[key].value == "unset"
+//@ ensures[C12] old(key in fm) && !(old(fm[key].value) == "4294967295" || old(fm[key].value) == "-1") ==> fm[key].value == old(fm[key].value)
+//@ ensures[C12] forall k string :: k != key ==> (k in fm) == old(k in fm) && fm[k].value == old(fm[k].value)
 //@ func (*auparse.AuditMessage).auditRuleKeyNew
 //@ requires data != nil
 //@ modifies m.tags, mapOf(data), alloc
@@ -158,3 +183,25 @@ package auparse
 //@ ensures[C04] isFirstMsg(line, k) && k >= 6 && toUpper(line[5:k-1]) in auditMessageNameToType && result0 != nil ==> result0.RecordType == auditMessageNameToType[toUpper(line[5:k-1])]
 //@ ensures[C04] isFirstMsg(line, k) && k >= 6 && toUpper(line[5:k-1]) in auditMessageNameToType && wfHeader(trimSpace(line[k+4:]), a, b, c, d) ==> result1 == nil && result0.Sequence == strUval(trimSpace(line[k+4:])[c+1:d], 10) && result0.RawData == trimSpace(line[k+4:])
 //@ ensures[C05] result0 != nil ==> -1 <= result0.offset && result0.offset <= len(result0.RawData)
+
+// ---------------------------------------------------------------------------
+// C12: the hex layer (kernel: unsafe strings are written as upper-case hex).
+//@ spec isHexUp(c int) bool := (48 <= c && c <= 57) || (65 <= c && c <= 70)
+//@ spec hexVal(c int) int := if c <= 57 then c - 48 else c - 55
+//
+//@ func auparse.fromHexChar
+//@ pure
+//@ ensures[C12] result1 == isHexUp(c)
+//@ ensures[C12] result1 ==> result0 == hexVal(c)
+//
+//@ func auparse.decodeUppercaseHex
+//@ requires len(dst) >= len(src) / 2 && base(dst) != base(src) -- the decoded bytes are described in terms of src, so the two must not share a backing array
+//@ modifies elems(dst)
+//@ ensures[C12] len(src) % 2 == 1 ==> !isNil(result1)
+//@ ensures[C12] isNil(result1) ==> len(src) % 2 == 0 && result0 == len(src) / 2
+//@ ensures[C12] isNil(result1) ==> (forall k int :: lo(src) <= k && k < hi(src) ==> isHexUp(at(src, k)))
+//@ ensures[C12] isNil(result1) ==> (forall k int :: lo(dst) <= k && k < lo(dst) + len(src) / 2 ==> at(dst, k) == 16 * hexVal(at(src, lo(src) + 2 * (k - lo(dst)))) + hexVal(at(src, lo(src) + 2 * (k - lo(dst)) + 1)))
+//@ ensures[C12] len(src) % 2 == 0 && (forall k int :: lo(src) <= k && k < hi(src) ==> isHexUp(at(src, k))) ==> isNil(result1)
+//@ loop 0 invariant[C12] 0 <= i && i <= len(src) / 2
+//@ loop 0 invariant[C12] forall k int :: lo(src) <= k && k < lo(src) + 2 * i ==> isHexUp(at(src, k))
+//@ loop 0 invariant[C12] forall k int :: lo(dst) <= k && k < lo(dst) + i ==> at(dst, k) == 16 * hexVal(at(src, lo(src) + 2 * (k - lo(dst)))) + hexVal(at(src, lo(src) + 2 * (k - lo(dst)) + 1))
